@@ -38,6 +38,11 @@ pub fn install_quiet_panic_hook() {
     }));
 }
 
+/// location and message of the most recent panic on this thread (cleared by `catch`)
+pub fn last_panic_loc() -> Option<String> {
+    LAST_PANIC_LOC.with(|l| l.borrow().clone())
+}
+
 /// Run `f`, turning a panic into Err(location: message).
 pub fn catch<T>(f: impl FnOnce() -> T) -> Result<T, String> {
     LAST_PANIC_LOC.with(|l| *l.borrow_mut() = None);
